@@ -279,7 +279,29 @@ def check_c14(exe, tier, seed, verdict):
             sc += ["newopt 2 %s" % hx("CONFIG_DIRS=%s;PARSING_DIRS=%s/usr/etc:%s/etc" % (":".join(pl_), R, R)), "readconfig 2 - - %s %s x3d x23" % (hx("cfg"), hx("conf"))]
             sc += ["get String 2 - %s" % hx("K%d" % j) for j in range(len(pl_))] + ["free 2"]
         cases.append(("postfixes-%d" % n, sc))
+    # root prefixes of growing length: every layer below the prefix is looked into (vendor, /run, /etc; with and without project)
+    rp_lens = [60, 200, 240, 250, 256, 262, 300, 1000, 3000]
+    for n in rp_lens:
+        R = ROOT + "/rp%d" % n
+        R += ("/" + "r" * 49) * (n // 50)
+        for prj in ("", "/prj"):
+            tag = "rootprefix-%d%s" % (n, prj.replace("/", "-"))
+            sc = ["file %s %s" % (hx(R + "/usr/lib" + prj + "/cfg.conf"), hx("U=1\nK=usr\n")), "file %s %s" % (hx(R + "/run" + prj + "/cfg.conf.d/r.conf"), hx("R=1\nK=run\n")),
+                  "file %s %s" % (hx(R + "/etc" + prj + "/cfg.conf.d/e.conf"), hx("E=1\nK=etc\n")),
+                  "newopt 1 %s" % hx("ROOT_PREFIX=" + R), "readconfig 1 %s %s %s %s x3d x23" % (hx("prj") if prj else "-", hx("/usr/lib"), hx("cfg"), hx("conf"))]
+            sc += ["get String 1 - %s" % hx(k_) for k_ in ("U", "R", "E", "K")] + ["free 1"]
+            cases.append((tag, sc))
     res = core.run_cases(exe, cases, per_case_timeout=120)
+    for n in rp_lens:
+        for prj in ("", "-prj"):
+            out = res.get("rootprefix-%d%s" % (n, prj))
+            if out and not out["crash"]:
+                gets = [e for e in out["ev"] if e["op"] == "get"]
+                got = [(e["rc"], e.get("out")) for e in gets]
+                want = [("ECONF_SUCCESS", "1")] * 3 + [("ECONF_SUCCESS", "etc")]
+                if got != want:
+                    verdict.violation("C14:root-prefix", {"kind": "rootprefix", "len": n, "project": bool(prj), "got": got},
+                                      "ROOT_PREFIX of about %d bytes (%s project directory): keys U (vendor), R (/run), E (/etc), K (override) came back as %s" % (n, "with" if prj else "without", got))
     for n, pl_ in enumerate(post_lists):
         out = res.get("postfixes-%d" % n)
         if out and not out["crash"]:
@@ -329,7 +351,7 @@ def check_c14(exe, tier, seed, verdict):
         verdict.violation("C14:%s:%s" % (e["kind"], e["api"].replace(" ", "")), {"kind": "long", "event": e, "spec": x["spec"]},
                           "%s of %d bytes through %s: %s, %d bytes came back, head intact %s, tail intact %s" % (e["kind"], e["len"], e["api"], e["rc"], e["out_len"], e["head_ok"], e["tail_ok"]))
     cov = {"evaluations": len(events), "distinct_nontrivial": nn,
-           "rule": "field kinds {value, quoted value, key, section name, continuation line, comment before, comment after, second definition joined under JOIN_SAME_ENTRIES} x lengths {EVERY length 1..%d and BUFSIZ-70..BUFSIZ+70%s, 2*BUFSIZ, 64 Ki, %s} through: econf_readFile, plain / extended getters, listings, econf_mergeFiles + getters, econf_writeFile + econf_readFile + getters, and the setters; file names of 6..256 bytes read directly and as drop-in; MAIN file names of 12..256 bytes (with suffix) through econf_readDirs, econf_readConfig and econf_readDirsHistory; paths of 200 and PATH_MAX-3 .. PATH_MAX+2 bytes; option strings of 8 Ki .. 70 Ki; drop-in directory postfix lists whose entries differ in length (2 .. 243 bytes) in every order, as process-wide list and as CONFIG_DIRS. The field carries distinct head and tail markers; Envelope!TLong requires out_len = len and both markers (names beyond NAME_MAX / PATH_MAX: an error code, no crash). Every kind once more at 64 Ki and 1 Mi on a thread with a 256 KiB stack (uninstrumented build), plus 20 entries with two 10000-byte comments each, written and read back there. non-trivial = length >= BUFSIZ-2." % (330 if tier == "quick" else 1099, "" if tier == "quick" else ", around 2*BUFSIZ and 64 Ki", "1 Mi" if tier == "thorough" else "200000"),
+           "rule": "field kinds {value, quoted value, key, section name, continuation line, comment before, comment after, second definition joined under JOIN_SAME_ENTRIES} x lengths {EVERY length 1..%d and BUFSIZ-70..BUFSIZ+70%s, 2*BUFSIZ, 64 Ki, %s} through: econf_readFile, plain / extended getters, listings, econf_mergeFiles + getters, econf_writeFile + econf_readFile + getters, and the setters; file names of 6..256 bytes read directly and as drop-in; MAIN file names of 12..256 bytes (with suffix) through econf_readDirs, econf_readConfig and econf_readDirsHistory; paths of 200 and PATH_MAX-3 .. PATH_MAX+2 bytes; option strings of 8 Ki .. 70 Ki; drop-in directory postfix lists whose entries differ in length (2 .. 243 bytes) in every order, as process-wide list and as CONFIG_DIRS; ROOT_PREFIX values of 60 .. 3000 bytes with files in the vendor, /run and /etc layer below them. The field carries distinct head and tail markers; Envelope!TLong requires out_len = len and both markers (names beyond NAME_MAX / PATH_MAX: an error code, no crash). Every kind once more at 64 Ki and 1 Mi on a thread with a 256 KiB stack (uninstrumented build), plus 20 entries with two 10000-byte comments each, written and read back there. non-trivial = length >= BUFSIZ-2." % (330 if tier == "quick" else 1099, "" if tier == "quick" else ", around 2*BUFSIZ and 64 Ki", "1 Mi" if tier == "thorough" else "200000"),
            "samples": events[:3], "exhaustive": True,
            "trusted_base": ["gcc ASan/UBSan", "TLC 1.8.0 (Envelope!TLong)", "drv.c longprobe/longname"]}
     return cov
